@@ -118,8 +118,10 @@ def preset(pid, tier):
     if pid in ('C03', 'C04', 'C05', 'C11'):
         props = {'C03': ['P_C03'], 'C04': ['P_C04'], 'C05': ['P_C05', 'P_C08', 'P_C10'], 'C11': []}[pid]
         invs = {'C03': [], 'C04': ['I_C04'], 'C05': ['I_C05'], 'C11': ['I_C11']}[pid]
-        docs = S(['A1', 'A2', 'C1', 'D2']) if q else S(['A1', 'A2', 'B12', 'C1', 'D2', 'E1', 'F12', 'U1'])
-        mcc = did(DocNames=docs, MaxDeliver=4 if q else 5, MaxHeight=3 if pid == 'C05' else 2,
+        # thorough bounds fitted to measured state counts: 6 documents x 5 deliveries = 89k states / 99M transitions / 9 min (C03, C11); the configurations with
+        # Redeliver (C04) or restart/export actions over 3 heights (C05) keep 4 deliveries
+        docs = S(['A1', 'A2', 'C1', 'D2']) if q else S(['A1', 'A2', 'C1', 'D2', 'F12', 'U1'])
+        mcc = did(DocNames=docs, MaxDeliver=4 if (q or pid in ('C04', 'C05')) else 5, MaxHeight=3 if pid == 'C05' else 2,
                   NextKinds=ALL_NEXT if pid == 'C05' else (S(['BeginBlock', 'Redeliver']) if pid == 'C04' else S(['BeginBlock'])))
         simc = did(Accts=S(['a1', 'a2', 'a3']), Dids=S(['d1', 'd2', 'dc']), ViewDids=S(['d1', 'd2', 'dc']),
                    DocNames=S(['A1', 'A2', 'B12', 'C1', 'D2', 'E1', 'F12', 'R1', 'U1', 'X1', 'N0', 'EMP']), ForeignVm=True, MaxDeliver=30, MaxHeight=6, NextKinds=ALL_NEXT_R, FailKeep=25)
@@ -147,8 +149,8 @@ def preset(pid, tier):
     if pid in ('C06', 'C12'):
         props = {'C06': ['P_C06'], 'C12': ['P_C12']}[pid]
         invs = {'C06': [], 'C12': ['I_C12']}[pid]
-        mcc = pn(SignerSets='all' if pid == 'C06' else 'exact', MaxDeliver=(5 if pid == 'C06' else 6) if q else 7, MaxHeight=2, TokenIds=S(['i1']) if pid == 'C06' else S(['i1', 'i2']),
-                 ViewTokens=S(['i1']) if pid == 'C06' else S(['i1', 'i2']))
+        mcc = pn(SignerSets='all' if pid == 'C06' else 'exact', MaxDeliver=(5 if pid == 'C06' else 6) if q else 8, MaxHeight=2, TokenIds=S(['i1']) if (pid == 'C06' and q) else S(['i1', 'i2']),
+                 ViewTokens=S(['i1']) if (pid == 'C06' and q) else S(['i1', 'i2']))
         simc = pn(Accts=S(['a1', 'a2', 'a3', 'a4']), DenomIds=S(['n1', 'n2', 'n3', 'nz']), TokenIds=S(['i1', 'i2', 'i3', 'iz']), ViewDenoms=S(['n1', 'n2', 'n3', 'nz']),
                   ViewTokens=S(['i1', 'i2', 'i3', 'iz']),
                   DNames=S(['x', 'y']), TDescs=S(['', 'q']), SignerSets='all', ExecOn=True, Kinds=PN_KINDS | S(['authz.Grant']), MaxDeliver=40, MaxHeight=6, NextKinds=ALL_NEXT, FailKeep=30)
@@ -172,7 +174,7 @@ def preset(pid, tier):
         return dict(mc=mcc, props=props, invs=invs, tour=tourc,
                     sims=[sim(simc, 150 if q else 3000, 60), sim(hostile, 40 if q else 600, 30), sim(pair1, 50 if q else 800, 40), sim(pair2, 30 if q else 500, 40)], mc_timeout=2400)
     if pid == 'C07':
-        mcc = burn(MaxDeliver=3 if q else 4, MaxHeight=5, GovAmts=S([5]), NextKinds=S(['BeginBlock', 'GovSchedule']))
+        mcc = burn(MaxDeliver=3 if q else 5, MaxHeight=5, GovAmts=S([5]), NextKinds=S(['BeginBlock', 'GovSchedule']))      # thorough: 661k states / 9.2M transitions
         simc = burn(Accts=S(['a1', 'a2', 'a3']), Amts=S([0, 1, 7, 1000]), Kinds=S(['bank.Send', 'bank.SendAcct', 'bank.MultiSend', 'vesting.Create']),
                     VestEnds=S([4, 6]), MaxDeliver=30, MaxHeight=9, FailKeep=3)
         # a route that needs no transaction in the block in which the coins arrive: governance community-pool spends to the burn address
@@ -186,7 +188,7 @@ def preset(pid, tier):
         allk = AOL_KINDS | DID_KINDS | PN_KINDS
         mcc = mk(Accts=S(['a1', 'a2']), Topics=S(['t1']), ViewTopics=S(['t1']), RecVals=S(['v1']), Dids=S(['d1']), ViewDids=S(['d1']), Keys=S(['k1']), VmNames=S(['v1']),
                  DocNames=S(['A1']), DenomIds=S(['n1']), TokenIds=S(['i1']), DNames=S(['x']), ViewDenoms=S(['n1']), ViewTokens=S(['i1']), Kinds=allk,
-                 MaxDeliver=3 if q else 4, MaxHeight=3, NextKinds=S(['BeginBlock', 'ExportImportBegin']))
+                 MaxDeliver=3 if q else 8, MaxHeight=3, NextKinds=S(['BeginBlock', 'ExportImportBegin']))      # thorough: 94k states / 3.7M transitions
         simc = mk(Accts=S(['a1', 'a2', 'a3', 'a4']), Topics=S(['t1', 't2', 't3']), ViewTopics=S(['t1', 't2', 't3']), RecKeys=S(['k1', 'k2', '']), RecVals=S(['v1', 'v2', '']),
                   Descs=S(['x', '']), Mons=S(['m', '']),
                   Dids=S(['d1', 'd2']), ViewDids=S(['d1', 'd2']), Keys=S(['k1', 'k2']), VmNames=S(['v1', 'v2']), DocNames=S(['A1', 'A2', 'B12', 'C1', 'D2', 'R1']),
